@@ -756,10 +756,15 @@ def exec_for_with_invariant(I, node, env, inv, qn, k):
         L, start, enum = itv, 0, False
     elif isinstance(itv, RevSym):
         L, start, enum, rev = itv.lst, 0, False, True
+    elif isinstance(itv, SliceSym):
+        L, start, enum = itv.lst, 0, False
+        off, count = itv.lo, itv.n
     elif isinstance(itv, SymRange):
         return _exec_for_range_with_invariant(I, node, env, inv, qn, k, itv)
     else:
         raise Unsupported("loop invariant on a loop over a concrete-length container")
+    if not isinstance(itv, SliceSym):
+        off, count = z3.IntVal(0), L.n
     inv_truth = _loop_inv_truth(I, env, inv['inv'])
     st.add_vc(f"loop{k}.inv_entry", 'invariant', inv_truth(0), {'level': 'sup', 'function': qn, 'line': node.lineno})
     tnames = [n.id for n in ast.walk(node.target) if isinstance(n, ast.Name)]
@@ -770,10 +775,10 @@ def exec_for_with_invariant(I, node, env, inv, qn, k):
     in_loop = st.fresh_bool('in_loop')
     if I.branch(in_loop):
         # an arbitrary iteration
-        st.assume(zi < L.n)
+        st.assume(zi < count)
         st.assume(inv_truth(SInt(zi), assumed=True))
         visible, before = _loop_snapshot(env)
-        elem = models.symlist_elem(I, L, z3.simplify(L.n - 1 - zi) if rev else zi)
+        elem = models.symlist_elem(I, L, z3.simplify(L.n - 1 - zi) if rev else z3.simplify(off + zi))
         I.assign(node.target, (mk_int(zi + start), elem) if enum else elem, env)
         try:
             I.exec_block(node.body, env)
@@ -786,7 +791,7 @@ def exec_for_with_invariant(I, node, env, inv, qn, k):
         _loop_frame_vcs(I, env, visible, before, modified + tnames, heap_mod, k, qn, node, inv.get('same_object', ()))
         raise _PathEnd()
     # loop finished: all iterations done
-    st.assume(zi == L.n)
+    st.assume(zi == count)
     st.assume(inv_truth(SInt(zi), assumed=True))
     # Python leaves the loop variable bound to the last element; when the function reads it outside the loop the
     # exit state must say so (else a made-up NameError, or a stale value, would follow)
@@ -796,9 +801,9 @@ def exec_for_with_invariant(I, node, env, inv, qn, k):
         used_outside = any(isinstance(n, ast.Name) and n.id in tnames and isinstance(n.ctx, ast.Load) and id(n) not in inside
                            for n in ast.walk(fnode))
         if used_outside:
-            if I.branch(L.n > 0):
-                last = models.symlist_elem(I, L, z3.IntVal(0) if rev else z3.simplify(L.n - 1))
-                I.assign(node.target, (mk_int(L.n - 1 + start), last) if enum else last, env)
+            if I.branch(count > 0):
+                last = models.symlist_elem(I, L, z3.IntVal(0) if rev else z3.simplify(off + count - 1))
+                I.assign(node.target, (mk_int(count - 1 + start), last) if enum else last, env)
             else:
                 for nm in tnames:
                     if nm in modified_before:
